@@ -122,7 +122,9 @@ class Ctx:
         if p.returncode == 124 and not simulate:
             raise Inconclusive("TLC timeout on %s/%s" % (module, cfg))
         if not res["ok"] and not (res["violated"] and allow_violation):
-            tail = "\n".join(res["lines"][-40:])
+            errs = [i for i, ln in enumerate(res["lines"]) if ln.startswith("Error:") or "Exception" in ln]
+            first = "\n".join(res["lines"][errs[0]:errs[0] + 25]) if errs else ""
+            tail = first + "\n...\n" + "\n".join(res["lines"][-15:])
             raise Inconclusive("TLC failed on %s/%s rc=%s\n%s" % (module, cfg, p.returncode, tail))
         if not simulate:
             self.tlc_states += res.get("distinct", 0)
